@@ -28,19 +28,27 @@ func main() {
 		fmt.Fprintln(os.Stderr, "usage: simrun check|worker|replay|selftest ...")
 		os.Exit(2)
 	}
+	cleanup := ensureScratch()
+	scratchCleanup = cleanup
+	exit := func(code int) {
+		cleanup()
+		os.Exit(code)
+	}
+	_ = exit
+	defer cleanup()
 	switch os.Args[1] {
 	case "check":
-		os.Exit(cmdCheck(os.Args[2:]))
+		exit(cmdCheck(os.Args[2:]))
 	case "worker":
-		os.Exit(cmdWorker(os.Args[2:]))
+		exit(cmdWorker(os.Args[2:]))
 	case "replay":
-		os.Exit(cmdReplay(os.Args[2:]))
+		exit(cmdReplay(os.Args[2:]))
 	case "selftest":
-		os.Exit(cmdSelftest(os.Args[2:]))
+		exit(cmdSelftest(os.Args[2:]))
 	case "digest":
-		os.Exit(cmdDigest(os.Args[2:]))
+		exit(cmdDigest(os.Args[2:]))
 	case "runtape":
-		os.Exit(cmdRunTape(os.Args[2:]))
+		exit(cmdRunTape(os.Args[2:]))
 	}
 	fmt.Fprintln(os.Stderr, "unknown subcommand", os.Args[1])
 	os.Exit(2)
@@ -662,4 +670,26 @@ func crashViolation(prop, summary string, frames []string) *core.Violation {
 	}
 	return &core.Violation{Property: prop, Oracle: "process-crash", Signature: "process crash: " + summary,
 		Detail: fmt.Sprintf("the run kills the process: %s in %s", summary, where)}
+}
+
+var scratchCleanup = func() {}
+
+// ensureScratch gives every top-level invocation one private scratch directory (memory-backed if
+// possible) that sandboxes are created in; child processes inherit it through SIMRUN_SCRATCH.
+// Its name has a fixed length so that path lengths are the same in every process.
+func ensureScratch() func() {
+	if os.Getenv("SIMRUN_SCRATCH") != "" {
+		return func() {}
+	}
+	base := os.TempDir()
+	if st, err := os.Stat("/dev/shm"); err == nil && st.IsDir() {
+		base = "/dev/shm"
+	}
+	dir := fmt.Sprintf("%s/simrun-%010d", base, os.Getpid())
+	os.RemoveAll(dir)
+	if err := os.MkdirAll(dir, 0o755); err != nil {
+		return func() {}
+	}
+	os.Setenv("SIMRUN_SCRATCH", dir)
+	return func() { os.RemoveAll(dir) }
 }
